@@ -23,6 +23,7 @@ struct Cfg {
   bool envBlocks;                         // an environment thread blocks / unblocks the sink
   bool silence;                           // producer 0 logs through LogStream with DISABLE / ENABLE
   int pb;
+  bool twoEpisodes = false;  // scripted: overflow while the sink is blocked, drain (the drop notice is written), overflow again
 };
 
 struct Sink : std::streambuf {
@@ -67,6 +68,12 @@ struct C20 : vr::Driver {
     cfgs.push_back({"2 producers: 2 large + 1 large", {{L, L}, {L}}, true, false, th ? 2 : 1});
     cfgs.push_back({"1 producer x 3 small with a blocking sink", {{S, S, S}}, true, false, pb});
     cfgs.push_back({"2 producers x 2 small, producer 0 silenced", {{S, S}, {S, S}}, false, true, th ? 2 : 1});
+    {
+      // second overflow after a first one has been reported: the backlog accounting must not drift (16-byte line on top of 1 MiB)
+      Cfg c{"1 producer: L L L(dropped) | drain | L L 16B(on top of a full backlog)", {{L, L, L, L, L, 16}}, true, false, th ? 2 : 1};
+      c.twoEpisodes = true;
+      cfgs.push_back(c);
+    }
     if (th) {
       cfgs.push_back({"3 producers x 1 small", {{S}, {S}, {S}}, false, false, 2});
       cfgs.push_back({"2 producers x 3 small", {{S, S, S}, {S, S, S}}, false, false, 2});
@@ -119,6 +126,7 @@ struct C20 : vr::Driver {
         int p, m;
         size_t size, written;
       };
+      int episode = 0;  // twoEpisodes script: 0 not started, 1 sink blocked (first overflow), 2 drained and blocked again
       std::vector<Ev> events;
       sink.onWrite = [&] { events.push_back({'W', -1, -1, 0, parseWritten()}); };
       std::vector<std::thread> producers;
@@ -139,12 +147,26 @@ struct C20 : vr::Driver {
             }
             producedLines++;
             events.push_back({'P', (int)p, (int)m, line.size(), parseWritten()});
+            if (c.twoEpisodes && m == 2) vs::pointIf([&] { return episode >= 2; }, "producer waits for the second episode");
           }
           if (c.silence && p == 0) Oomd::LogStream(*log) << Oomd::LogStream::Control::ENABLE;
         });
       }
       std::thread env;
-      if (c.envBlocks) {
+      if (c.twoEpisodes) {
+        sink.blocked = true;  // blocked from the start: nothing reaches the sink during the first episode
+        episode = 1;
+        env = std::thread([&] {
+          vs::pointIf([&] { return producedLines >= 3; }, "env waits for the first overflow");
+          sink.blocked = false;
+          // wait until the flusher has written everything it had (it goes back to waiting) and the producer is parked
+          vs::pointIf([] { return vs::othersBlocked(); }, "env waits for the drain");
+          sink.blocked = true;
+          episode = 2;
+          vs::pointIf([&] { return producedLines >= 6; }, "env waits for the second overflow");
+          sink.blocked = false;
+        });
+      } else if (c.envBlocks) {
         env = std::thread([&] {
           vs::yield("env: block sink");
           sink.blocked = true;
